@@ -64,6 +64,6 @@ def ext_harnesses():
 def select(hs, prop, tier):
     sel = []
     for h in hs:
-        if prop in h["props"] and (tier == "thorough" or h["tier"] == "quick"):
+        if prop in h["props"] and h["tier"] != "disabled" and (tier == "thorough" or h["tier"] == "quick"):
             sel.append(h)
     return sel
